@@ -193,3 +193,30 @@ pub fn copy_within(kind: u8, pc: usize, pr: usize, sc: usize, sr: usize, ec: usi
     }
     end_reached!();
 }
+
+/// Zero-sized elements: a size mismatch must still be rejected (and equal sizes accepted).
+/// op: 2 copy_from_toodee, 3 clone_from_toodee; dest kind 0 owned, 1 view_mut of the whole array
+pub fn unit_sizes(op: u8, kind: u8, c: usize, r: usize, sc: usize, sr: usize, must_panic: bool) {
+    let mk = |c: usize, r: usize| {
+        let mut v: Vec<()> = Vec::new();
+        let mut i = 0;
+        while i < c * r {
+            v.push(());
+            i += 1;
+        }
+        TooDee::from_vec(c, r, v)
+    };
+    let mut t = mk(c, r);
+    let s = mk(sc, sr);
+    if kind == 0 {
+        if op == 2 { t.copy_from_toodee(&s) } else { t.clone_from_toodee(&s) }
+    } else {
+        let mut v = t.view_mut((0, 0), (c, r));
+        if op == 2 { v.copy_from_toodee(&s) } else { v.clone_from_toodee(&s) }
+    }
+    if must_panic {
+        returned!();
+    } else {
+        end_reached!();
+    }
+}
